@@ -1,15 +1,21 @@
 // C15: blocks selected by bucketBlockSet.getFor never exceed the maximum resolution, never repeat a block, all overlap the
 // query range and cover every instant of the range that some block of an allowed resolution covers.
-// Engine E4: every layout of up to N blocks (multisets, every insertion order for <= 3 blocks) whose bounds lie on a
-// 6-point grid scaled by 2 (0,2,..,10) at resolutions {raw,5m,1h}; for each layout every query range with integer bounds
-// -1..11 (so that bounds fall before, on, strictly inside and after blocks) x every maximum resolution around the two
-// comparison boundaries of the code (0, 5m-1, 5m, 1h-1, 1h, MaxInt64).
+// Engine E4, two families on the real bucketBlockSet:
+//   - layouts: every sequence of up to 3 add() calls (thorough: also every multiset of 4, ascending and descending) of blocks
+//     whose bounds lie on a 6-point grid scaled by 2 (0,2,..,10) at resolutions {raw,5m,1h};
+//   - histories: every sequence of add() and remove() calls with at least one remove (bounded number of adds and removes, a
+//     remove names any block added before it, present or already removed) over the 5-point grid (0,2,..,8) x {raw,5m,1h}.
+// After the last operation getFor is called for every query range with integer bounds one below .. one above the grid (so
+// that bounds fall before, on, strictly inside and after blocks) x every maximum resolution around the two comparison
+// boundaries of the code (0, 5m-1, 5m, 1h-1, 1h, MaxInt64). Every prefix of a history is itself an enumerated history, so
+// every intermediate state is queried. The oracle is the statement applied to the blocks that are in the set at that moment.
 package c15
 
 import (
 	"fmt"
 	"iter"
 	"math"
+	"strings"
 	"testing"
 
 	"github.com/thanos-io/thanos/pkg/store"
@@ -23,25 +29,37 @@ type B struct {
 	Res int   `json:"res"` // 0 raw, 1 5m, 2 1h
 }
 
-// Case is one layout, in insertion order; all queries are evaluated on it.
+// Op is one step of a history: "add" puts Blocks[Block] into the set, "remove" calls remove with its ULID.
+type Op struct {
+	Op    string `json:"op"`
+	Block int    `json:"block"`
+}
+
+// Case is the list of blocks that are ever added (in the order they are added) and the history of operations; an empty
+// history means "add every block, in order". All queries with bounds -1..QHi are evaluated after the last operation.
 type Case struct {
-	Blocks []B `json:"blocks"`
+	Blocks []B  `json:"blocks"`
+	Ops    []Op `json:"ops,omitempty"`
+	QHi    int  `json:"qhi,omitempty"` // 0 = 11 (the layout family)
 }
 
 var resMillis = []int64{0, 300000, 3600000}
 var maxResAlphabet = []int64{0, 299999, 300000, 3599999, 3600000, math.MaxInt64}
 
 const (
-	gridPoints = 6
-	scale      = 2
-	qLo, qHi   = -1, (gridPoints-1)*scale + 1
+	gridPoints     = 6 // layout family
+	histGridPoints = 5 // history family
+	scale          = 2
+	qLo            = -1
 )
 
-func blockTypes() []B {
+func qHiFor(points int) int { return (points-1)*scale + 1 }
+
+func blockTypes(points, resolutions int) []B {
 	var out []B
-	for res := 0; res < 3; res++ {
-		for a := 0; a < gridPoints; a++ {
-			for b := a + 1; b < gridPoints; b++ {
+	for res := 0; res < resolutions; res++ {
+		for a := 0; a < points; a++ {
+			for b := a + 1; b < points; b++ {
 				out = append(out, B{Min: int64(a * scale), Max: int64(b * scale), Res: res})
 			}
 		}
@@ -49,42 +67,117 @@ func blockTypes() []B {
 	return out
 }
 
-func gen(r *vlib.R) iter.Seq[Case] {
-	types := blockTypes()
-	maxBlocks := vlib.Pick(r, 3, 4)
-	return func(yield func(Case) bool) {
-		for n := 0; n <= maxBlocks; n++ {
-			for ms := range vlib.Multisets(n, len(types)) {
-				emit := func(order []int) bool {
-					c := Case{Blocks: make([]B, n)}
-					for i, o := range order {
-						c.Blocks[i] = types[ms[o]]
-					}
-					return yield(c)
+// skeletons lists every operation sequence with exactly nAdds adds (block numbers 0..nAdds-1 in order) and 1..maxRm
+// removes, where a remove names any block added before it (also one that was removed already), shortest first.
+func skeletons(nAdds, maxRm int) [][]Op {
+	var out [][]Op
+	for rm := 1; rm <= maxRm; rm++ {
+		var rec func(cur []Op, added, removed int)
+		rec = func(cur []Op, added, removed int) {
+			if added == nAdds && removed == rm {
+				out = append(out, append([]Op(nil), cur...))
+				return
+			}
+			if added < nAdds {
+				rec(append(cur, Op{Op: "add", Block: added}), added+1, removed)
+			}
+			if removed < rm {
+				for k := 0; k < added; k++ {
+					rec(append(cur, Op{Op: "remove", Block: k}), added, removed+1)
 				}
-				if n <= 3 {
-					seen := map[string]struct{}{}
-					for p := range vlib.Perms(n) {
-						k := ""
-						for _, o := range p {
-							k += fmt.Sprint(ms[o], ",")
-						}
-						if _, dup := seen[k]; dup { // identical block types: same insertion sequence
-							continue
-						}
-						seen[k] = struct{}{}
-						if !emit(p) {
-							return
-						}
-					}
+			}
+		}
+		rec(nil, 0, 0)
+	}
+	return out
+}
+
+func genLayouts(r *vlib.R, n int, yield func(Case) bool) bool {
+	types := blockTypes(gridPoints, 3)
+	for ms := range vlib.Multisets(n, len(types)) {
+		emit := func(order []int) bool {
+			c := Case{Blocks: make([]B, n)}
+			for i, o := range order {
+				c.Blocks[i] = types[ms[o]]
+			}
+			return yield(c)
+		}
+		if n <= 3 {
+			seen := map[[3]int]struct{}{}
+			for p := range vlib.Perms(n) {
+				k := [3]int{-1, -1, -1}
+				for i, o := range p {
+					k[i] = ms[o]
+				}
+				if _, dup := seen[k]; dup { // identical block types: same insertion sequence
 					continue
 				}
-				asc := make([]int, n)
-				desc := make([]int, n)
-				for i := range asc {
-					asc[i], desc[i] = i, n-1-i
+				seen[k] = struct{}{}
+				if !emit(p) {
+					return false
 				}
-				if !emit(asc) || !emit(desc) {
+			}
+			continue
+		}
+		asc := make([]int, n)
+		desc := make([]int, n)
+		for i := range asc {
+			asc[i], desc[i] = i, n-1-i
+		}
+		if !emit(asc) || !emit(desc) {
+			return false
+		}
+	}
+	return true
+}
+
+// genHistories yields skeleton x every assignment of block types to the nAdds added blocks.
+func genHistories(types []B, nAdds, maxRm int, yield func(Case) bool) bool {
+	for _, sk := range skeletons(nAdds, maxRm) {
+		for tu := range vlib.Tuples(nAdds, len(types)) {
+			c := Case{Blocks: make([]B, nAdds), Ops: sk, QHi: qHiFor(histGridPoints)}
+			for i, ty := range tu {
+				c.Blocks[i] = types[ty]
+			}
+			if !yield(c) {
+				return false
+			}
+		}
+	}
+	return true
+}
+
+type bounds struct {
+	maxBlocks            int // layout family
+	histAdds, histRm     int // history family, 3 resolutions: <= histAdds adds with <= histRm removes
+	histAdds2, histRm2   int // history family, 3 resolutions: fewer adds, more removes
+	deepAdds, deepRm     int // history family, resolutions {raw,5m} only (0 = off)
+	histTypes, deepTypes []B
+}
+
+func gen(r *vlib.R, bd bounds) iter.Seq[Case] {
+	return func(yield func(Case) bool) {
+		top := max(bd.maxBlocks, bd.histAdds, bd.histAdds2, bd.deepAdds)
+		for n := 0; n <= top; n++ { // simplest first: by number of blocks ever added
+			if n <= bd.maxBlocks && !genLayouts(r, n, yield) {
+				return
+			}
+			if n == 0 {
+				continue
+			}
+			rm := 0
+			if n <= bd.histAdds {
+				rm = bd.histRm
+			}
+			if n <= bd.histAdds2 {
+				rm = max(rm, bd.histRm2)
+			}
+			if rm > 0 {
+				if !genHistories(bd.histTypes, n, rm, yield) {
+					return
+				}
+			} else if n <= bd.deepAdds {
+				if !genHistories(bd.deepTypes, n, bd.deepRm, yield) {
 					return
 				}
 			}
@@ -92,88 +185,230 @@ func gen(r *vlib.R) iter.Seq[Case] {
 	}
 }
 
-func TestCheck(t *testing.T) {
-	r := vlib.New(t, "C15")
-	defer r.Finish()
-	r.Rule("layouts = multisets of <= N blocks over 15 intervals [2a,2b) (0<=a<b<=5) x {raw,5m,1h}, all distinct insertion orders for <= 3 blocks (ascending and " +
-		"descending for 4); per layout all 91 query ranges with integer bounds -1..11 x 6 maximum resolutions; non-trivial = distinct layout for which some query " +
-		"returned blocks of at least two resolutions (gap filling happened); extra: getFor calls, calls with gap filling")
-	r.Assume("No block-level matchers (hints) are passed; all blocks carry the set's (empty) external labels.",
-		"Instants are integer milliseconds; block intervals are half-open [min,max), query ranges closed [mint,maxt] as in the code's comments.")
-
-	vlib.ForEach(r, gen(r), func(c Case) {
-		r.Sample(c)
-		in := make([]store.VerifC15Block, len(c.Blocks))
-		for i, b := range c.Blocks {
-			in[i] = store.VerifC15Block{Min: b.Min, Max: b.Max, Res: resMillis[b.Res]}
+func (c Case) history() ([]Op, error) {
+	ops := c.Ops
+	if len(ops) == 0 {
+		ops = make([]Op, len(c.Blocks))
+		for i := range ops {
+			ops[i] = Op{Op: "add", Block: i}
 		}
-		set, err := store.VerifC15NewSet(in)
-		if err != nil {
-			t.Errorf("HARNESS-ERROR add failed for %+v: %v", c, err)
+	}
+	added := make([]bool, len(c.Blocks))
+	for _, o := range ops {
+		if o.Block < 0 || o.Block >= len(c.Blocks) {
+			return nil, fmt.Errorf("operation %+v names no block", o)
+		}
+		switch o.Op {
+		case "add":
+			if added[o.Block] {
+				return nil, fmt.Errorf("block %d added twice", o.Block)
+			}
+			added[o.Block] = true
+		case "remove":
+			if !added[o.Block] {
+				return nil, fmt.Errorf("block %d removed before it was added", o.Block)
+			}
+		default:
+			return nil, fmt.Errorf("unknown operation %q", o.Op)
+		}
+	}
+	for _, b := range c.Blocks {
+		if b.Res < 0 || b.Res >= len(resMillis) {
+			return nil, fmt.Errorf("unknown resolution class %d", b.Res)
+		}
+	}
+	return ops, nil
+}
+
+func describe(c Case, ops []Op) string {
+	var sb strings.Builder
+	for i, o := range ops {
+		if i > 0 {
+			sb.WriteString("; ")
+		}
+		b := c.Blocks[o.Block]
+		fmt.Fprintf(&sb, "%s #%d [%d,%d) res=%d", o.Op, o.Block, b.Min, b.Max, resMillis[b.Res])
+	}
+	return sb.String()
+}
+
+// sortsAfter is the order add() documents: by min time, then max time.
+func sortsAfter(a, b B) bool {
+	if a.Min == b.Min {
+		return a.Max > b.Max
+	}
+	return a.Min > b.Min
+}
+
+func evalCase(r *vlib.R, t *testing.T, c Case) {
+	r.Sample(c)
+	ops, err := c.history()
+	if err != nil {
+		t.Errorf("HARNESS-ERROR malformed case %+v: %v", c, err)
+		return
+	}
+	qHi := c.QHi
+	if qHi == 0 {
+		qHi = qHiFor(gridPoints)
+	}
+	suffix, isHist := "", false
+	for _, o := range ops {
+		if o.Op == "remove" {
+			suffix, isHist = ":after-remove", true
+		}
+	}
+	hist := describe(c, ops)
+
+	// A panic of the code under test is a counter-example, not a crash of the check.
+	doing := ""
+	var mint, maxt, maxRes int64
+	query := func() string { return fmt.Sprintf("getFor(mint=%d, maxt=%d, maxResolution=%d)", mint, maxt, maxRes) }
+	defer func() {
+		if p := recover(); p != nil {
+			if doing == "" {
+				doing = query()
+			}
+			r.Violation("panic-in-block-set"+suffix, fmt.Sprintf("history {%s}: %s panicked: %v", hist, doing, p), c)
+		}
+	}()
+
+	set := store.VerifC15Empty()
+	live := make([]bool, len(c.Blocks))
+	var shifted, absent int64
+	for _, o := range ops {
+		b := c.Blocks[o.Block]
+		if o.Op == "add" {
+			doing = fmt.Sprintf("add(#%d)", o.Block)
+			if err := set.Add(o.Block, store.VerifC15Block{Min: b.Min, Max: b.Max, Res: resMillis[b.Res]}); err != nil {
+				t.Errorf("HARNESS-ERROR add failed for %+v: %v", c, err)
+				return
+			}
+			live[o.Block] = true
+			continue
+		}
+		if !live[o.Block] {
+			absent++
+		} else {
+			for i, x := range c.Blocks {
+				if live[i] && i != o.Block && x.Res == b.Res && sortsAfter(x, b) {
+					shifted++ // a later block of the same resolution has to move up
+					break
+				}
+			}
+		}
+		doing = fmt.Sprintf("remove(#%d)", o.Block)
+		set.Remove(o.Block)
+		live[o.Block] = false
+	}
+
+	doing = ""
+	var calls, filled, nonEmpty int64
+	multi := false
+	reported := map[string]bool{}
+	seen := make([]int, len(c.Blocks))
+	var got []int
+	viol := func(sig, format string, a ...any) {
+		sig += suffix
+		if reported[sig] { // one counter-example per signature and case is enough
 			return
 		}
-		var calls, filled int64
-		multi := false
-		reported := map[string]bool{}
-		seen := make([]int, len(c.Blocks))
-		for mint := int64(qLo); mint <= qHi; mint++ {
-			for maxt := mint; maxt <= qHi; maxt++ {
-				for _, maxRes := range maxResAlphabet {
-					got := set.GetFor(mint, maxt, maxRes)
-					calls++
-					viol := func(sig, format string, a ...any) {
-						if reported[sig] { // one counter-example per signature and layout is enough
-							return
-						}
-						reported[sig] = true
-						r.Violation(sig, fmt.Sprintf("getFor(mint=%d, maxt=%d, maxResolution=%d) returned blocks %v of %+v: ", mint, maxt, maxRes, got, c.Blocks)+fmt.Sprintf(format, a...), c)
+		reported[sig] = true
+		r.Violation(sig, fmt.Sprintf("history {%s}: %s returned blocks %v: ", hist, query(), got)+fmt.Sprintf(format, a...), c)
+	}
+	for mint = int64(qLo); mint <= int64(qHi); mint++ {
+		for maxt = mint; maxt <= int64(qHi); maxt++ {
+			for _, maxRes = range maxResAlphabet {
+				got = set.GetFor(mint, maxt, maxRes)
+				calls++
+				clear(seen)
+				resSeen := 0
+				for _, g := range got {
+					if g < 0 || g >= len(c.Blocks) {
+						viol("unknown-block-selected", "a returned entry is nil or a block that was never added")
+						continue
 					}
-					clear(seen)
-					resSeen := 0
-					for _, g := range got {
-						b := c.Blocks[g]
-						seen[g]++
-						resSeen |= 1 << uint(b.Res)
-						if resMillis[b.Res] > maxRes {
-							viol("block-above-max-resolution", "block %d has resolution %d", g, resMillis[b.Res])
-						}
-						if !(b.Min <= maxt && b.Max > mint) {
-							viol("block-outside-query-range", "block %d [%d,%d) does not overlap the range", g, b.Min, b.Max)
-						}
+					b := c.Blocks[g]
+					seen[g]++
+					resSeen |= 1 << uint(b.Res)
+					if !live[g] {
+						viol("removed-block-selected", "block #%d is not in the set any more", g)
 					}
-					if resSeen&(resSeen-1) != 0 {
-						multi = true
-						filled++
+					if resMillis[b.Res] > maxRes {
+						viol("block-above-max-resolution", "block #%d has resolution %d", g, resMillis[b.Res])
 					}
-					for g, n := range seen {
-						if n > 1 {
-							viol("block-returned-twice:lower-resolution-block-spans-several-gaps", "block %d is returned %d times", g, n)
-						}
+					if !(b.Min <= maxt && b.Max > mint) {
+						viol("block-outside-query-range", "block #%d [%d,%d) does not overlap the range", g, b.Min, b.Max)
 					}
-					for ti := mint; ti <= maxt; ti++ {
-						avail, covered := -1, false
-						for i, b := range c.Blocks {
-							if b.Min <= ti && ti < b.Max {
-								if resMillis[b.Res] <= maxRes {
-									avail = i
-								}
-								if seen[i] > 0 {
-									covered = true
-								}
+				}
+				if len(got) > 0 {
+					nonEmpty++
+				}
+				if resSeen&(resSeen-1) != 0 {
+					multi = true
+					filled++
+				}
+				for g, n := range seen {
+					if n > 1 {
+						viol("block-returned-twice:lower-resolution-block-spans-several-gaps", "block #%d is returned %d times", g, n)
+					}
+				}
+				for ti := mint; ti <= maxt; ti++ {
+					avail, covered := -1, false
+					for i, b := range c.Blocks {
+						if b.Min <= ti && ti < b.Max {
+							if live[i] && resMillis[b.Res] <= maxRes {
+								avail = i
+							}
+							if seen[i] > 0 {
+								covered = true
 							}
 						}
-						if avail >= 0 && !covered {
-							viol("covered-instant-not-selected", "instant %d is covered by block %d (allowed resolution) but by no returned block", ti, avail)
-							break
-						}
+					}
+					if avail >= 0 && !covered {
+						viol("covered-instant-not-selected", "instant %d is covered by block #%d (in the set, allowed resolution) but by no returned block", ti, avail)
+						break
 					}
 				}
 			}
 		}
-		r.Add("getfor_calls", calls)
-		r.Add("getfor_calls_with_gap_filling", filled)
-		if multi {
-			r.Nontrivial(fmt.Sprint(c.Blocks))
+	}
+	r.Add("getfor_calls", calls)
+	r.Add("getfor_calls_with_gap_filling", filled)
+	if isHist {
+		r.Add("history_cases", 1)
+		r.Add("history_removes_that_shift_later_blocks", shifted)
+		r.Add("history_removes_of_absent_block", absent)
+		if shifted > 0 && nonEmpty > 0 {
+			r.Add("history_cases_nontrivial", 1)
+			r.Nontrivial(fmt.Sprint(c.Blocks, c.Ops))
 		}
-	})
+	} else if multi {
+		r.Add("layout_cases_nontrivial", 1)
+		r.Nontrivial(fmt.Sprint(c.Blocks))
+	}
+}
+
+func TestCheck(t *testing.T) {
+	r := vlib.New(t, "C15")
+	defer r.Finish()
+	bd := bounds{
+		maxBlocks: vlib.Pick(r, 3, 4),
+		histAdds:  3, histRm: vlib.Pick(r, 1, 2),
+		histAdds2: 2, histRm2: 2,
+		deepAdds: vlib.Pick(r, 0, 4), deepRm: 1,
+		histTypes: blockTypes(histGridPoints, 3),
+		deepTypes: blockTypes(histGridPoints, 2),
+	}
+	r.Rule(fmt.Sprintf("layouts = sequences of <= 3 add() of blocks over 15 intervals [2a,2b) (0<=a<b<=5) x {raw,5m,1h} (4 blocks: every multiset, ascending and descending); "+
+		"histories = every sequence of add()/remove() with >= 1 remove, a remove naming any earlier added block (present or already removed), over 10 intervals "+
+		"[2a,2b) (0<=a<b<=4) x {raw,5m,1h}: <= %d adds with <= %d removes, <= %d adds with <= %d removes; <= %d adds with %d remove over x {raw,5m} (0 = off); "+
+		"after the last operation all query ranges with integer bounds -1..11 (histories -1..9) x 6 maximum resolutions; non-trivial layout = some query returned blocks of "+
+		"at least two resolutions (gap filling happened); non-trivial history = some remove took out a block with a later block of its resolution behind it and some "+
+		"query afterwards returned blocks; extra: getFor calls, calls with gap filling, history counters",
+		bd.histAdds, bd.histRm, bd.histAdds2, bd.histRm2, bd.deepAdds, bd.deepRm))
+	r.Assume("No block-level matchers (hints) are passed; all blocks carry the set's (empty) external labels.",
+		"Instants are integer milliseconds; block intervals are half-open [min,max), query ranges closed [mint,maxt] as in the code's comments.",
+		"Operations on one set are sequential (add/remove/getFor are serialised by the set's mutex); every block has its own ULID.")
+
+	vlib.ForEach(r, gen(r, bd), func(c Case) { evalCase(r, t, c) })
 }
